@@ -252,6 +252,8 @@ Definition compress_file (w : world) (n : bytes) : bool * world :=
   let g := gz_name n in
   let '(flt1, w1) := tick w in
   if flt1 then (false, w1) else
+  (* File::create fails on a directory of that name *)
+  if match file_of (wfs w1) g with Some fl => fdir fl | None => false end then (false, w1) else
   let now := wnow w1 in
   let ino := snd (open_trunc (wfs w1) g 2 now) in
   let w2 := effect w1 (fun f => fst (open_trunc f g 2 now)) in     (* File::create: an empty file named *.gz *)
